@@ -464,3 +464,15 @@ Proof. vm_compute. reflexivity. Qed.
 
 Example ex_split : split_last 46 [97; 46; 98; 46; 88] = Some ([97; 46; 98], [88]).
 Proof. reflexivity. Qed.
+
+(* ---- every delivery is handled, in order, whatever happens to the readiness of the ones before it *)
+Theorem deliveries_all_handled q : drain false q = map expected_handling q.
+Proof.
+  induction q as [|[req r] q IH]; [reflexivity|]. cbn [drain map]. destruct r; unfold expected_handling at 1; cbn [fst snd].
+  - rewrite IH. reflexivity.
+  - unfold ready_flag_cleared_on_failure. cbn [negb]. rewrite IH. reflexivity.
+Qed.
+
+Example ex_deliveries : drain false [(1, ReadyOk); (2, ReadyFails); (3, ReadyOk); (4, ReadyFails); (5, ReadyOk)]
+                        = [Ran 1; Refused 2; Ran 3; Refused 4; Ran 5].
+Proof. reflexivity. Qed.
